@@ -5,6 +5,7 @@ from ..alg import AlgError, Context, Rat
 from ..extract import Extractor, Closure, Opaque, PathRaises, ReturnValue, _dotted
 from ..model import Program, walk_own, is_self_attr
 from ..report import AnalysisError
+from ..model import key_in
 
 EQ = "hypnotoad/core/equilibrium.py"
 MESH = "hypnotoad/core/mesh.py"
@@ -199,7 +200,7 @@ class Geo1Ex(Extractor):
     def choose(self, test, env):
         t = self.text(test)
         for key, val in self.seeds.items():
-            if key in t:
+            if key_in(key, t):
                 return val
         return super().choose(test, env)
 
